@@ -76,6 +76,19 @@ CLAIMED = {
    note=TRUST + "Cli.v is a hand-written model of __main__.py tied by running generated command lines through the model and the real CLI in subprocesses (exit status, stdout, bytes of a pre-existing output file).",
    technique="Coq proof over an argument/effect-trace machine with generated option table + subprocess correspondence",
    ref="5/C16"),
+ "C01": dict(
+   text="PARTIAL. Proved, for all inputs: C01_if_styles_agree_partial - for ALL conditions and branches, oracles and fuels, the "
+        "short-circuit form `not not t and [b] or o` reaches the state of the conditional expression in the evaluator of the scaffolding "
+        "expressions; C01_wrappers_agree_partial - for EVERY number of statements the chained-call wrapper performs the statements' "
+        "effects once each in order, as the list display does (call-by-value evaluation); C01_module_control_flow_partial - the C05 "
+        "simulation. Together with the per-construct theorems of C05/C06/C07/C11/C12/C13/C14 over the same converter model these are the "
+        "proved components; their composition into one whole-program theorem is NOT proved. The property itself (stdout, user globals, no "
+        "lost/renamed/rebound user name) is decided on the explored programs by exec/eval comparison: feature scripts covering the "
+        "fragment list, the repository's 16 test scripts, control-flow skeletons, destructuring, class programs, scope trees, probe "
+        "programs with operation-level logs, statement templates - each under all 8 option combinations, and on 3.10/3.11/3.13 (support).",
+   note=TRUST + "KSem.run and Equiv.eval_chain are models of CPython's evaluation of the scaffolding expressions (validated by traces / differential execution).",
+   technique="Coq proof (evaluator-level equivalence of the option-dependent shapes; simulation for control flow) + AST correspondence of the whole-converter model + differential execution under 8 configurations on four interpreters",
+   ref="5/C01"),
  "C02": dict(
    text="Theorem C02_single_line: for EVERY expression tree (all node kinds, f-strings nested to any depth) whose identifiers and "
         "number/bytes reprs contain no line break, the text of the project's own unparser (model tied by string correspondence, "
